@@ -48,6 +48,9 @@ ArgVal(arg, row) ==
     \* shift-invariant aggregates (var, stddev) over LARGE values: the engine aggregates column v = offset + vs, the
     \* reference aggregates the small shadow column vs of the same row (var(v) = var(vs))
     [] arg.k = "shadow" -> IF Has(row, arg.c) THEN row[arg.c] ELSE Missing
+    \* column handed through the user function vboom, which panics on cfg.poison.v: that row is skipped by this aggregate only
+    [] arg.k = "boomcol" -> IF ~Has(row, arg.c) THEN Missing
+                            ELSE IF IsNum(row[arg.c]) /\ row[arg.c].v = cfg.poison.v THEN Missing ELSE row[arg.c]
     [] arg.k = "star" -> Null
 
 \* parameter handed to Agg!Ok: for first/last value 1 = "an absent input may also count as NULL" (expression / path arguments)
@@ -61,6 +64,8 @@ DevOf(a, e, xs, n) ==
   ELSE IF a.fn = "deduplicate" /\ a.arg.k # "col" /\ Same(e, [k |-> "list", v |-> Dedup(NullsKept(xs), {})]) THEN "CollectKeepsNullOfExprArg"
   ELSE ""
 
+PoisonVal(row) == "poison" \in DOMAIN cfg /\ Has(row, cfg.poison.c) /\ IsNum(row[cfg.poison.c]) /\ row[cfg.poison.c].v = cfg.poison.v
+SoftPoison == "poison" \in DOMAIN cfg /\ cfg.poison.drop = 0
 \* <<code, devs>>: first violated clause of result row r against the group's input rows (indices idxs), "" when fine
 RECURSIVE AggCode(_, _, _, _)
 AggCode(r, idxs, k, dv) ==
@@ -69,6 +74,11 @@ AggCode(r, idxs, k, dv) ==
            xs == [i \in 1..Len(idxs) |-> ArgVal(a.arg, rows[idxs[i]])]
        IN IF a.al \notin DOMAIN r THEN <<"missing_column_" \o a.al, dv>>
           ELSE IF Ok(a.fn, r[a.al], xs, ParamOf(a), Len(idxs)) THEN AggCode(r, idxs, k + 1, dv)
+          \* a row on which a user function of the statement panicked while the row was being added is skipped from that point on:
+          \* each aggregate has either counted it or not (the statement of C03 is silent about such rows)
+          ELSE IF SoftPoison /\ LET id2 == SelectSeq(idxs, LAMBDA i : ~PoisonVal(rows[i]))
+                                    xs2 == [i \in 1..Len(id2) |-> ArgVal(a.arg, rows[id2[i]])]
+                                IN Len(id2) < Len(idxs) /\ Ok(a.fn, r[a.al], xs2, ParamOf(a), Len(id2)) THEN AggCode(r, idxs, k + 1, dv)
           ELSE LET d == DevOf(a, r[a.al], xs, Len(idxs)) IN
                IF d # "" /\ d \in Dev THEN AggCode(r, idxs, k + 1, dv \cup {d})
                ELSE <<"wrong_" \o a.fn \o "_" \o a.al, dv>>
@@ -97,9 +107,14 @@ PHolds(p, idxs) ==
     [] p.o = "and" -> PHolds(p.a, idxs) /\ PHolds(p.b, idxs)
     [] p.o = "or"  -> PHolds(p.a, idxs) \/ PHolds(p.b, idxs)
 Fires(ix) == IF cfg.carrier = "counting" THEN Len(ix) = cfg.n ELSE PHolds(cfg.pred, ix)
+\* poison (optional): a value of column cfg.poison.c on which user code of the statement panics. With cfg.poison.drop = 1 the statement
+\* has a user AGGREGATE whose Result panics: the batch holding such a row is dropped as a whole (nothing is delivered for it) and leaves
+\* nothing behind: the key's next batch is aggregated over its own rows only
+Poisoned(i) == "poison" \in DOMAIN cfg /\ cfg.poison.drop = 1 /\ LET r == RowAt(i) IN Has(r, cfg.poison.c) /\ IsNum(r[cfg.poison.c]) /\ r[cfg.poison.c].v = cfg.poison.v
+Dropped(ix) == \E k \in 1..Len(ix) : Poisoned(ix[k])
 \* HAVING (optional, counting carrier): a complete batch is delivered only if the predicate holds over ITS rows; a rejected
 \* batch is consumed all the same and leaves nothing behind for the key's next batch
-Delivers(ix) == "having" \notin DOMAIN cfg \/ PHolds(cfg.having, ix)
+Delivers(ix) == ~Dropped(ix) /\ ("having" \notin DOMAIN cfg \/ PHolds(cfg.having, ix))
 
 \* ---- counting carrier ----
 BufIdx(kt) == {i \in 1..Len(buf) : buf[i].key = kt}
@@ -164,6 +179,8 @@ Next ==
         /\ UNCHANGED <<cfg, rows, buf, exp, nout, used>>
      ELSE IF e.e = "void" THEN      \* the driver could not keep its own real-time schedule: this trace decides nothing
         /\ dead' = TRUE /\ UNCHANGED <<cfg, rows, buf, exp, nout, used>>
+     ELSE IF e.e = "panic" /\ "poison" \in DOMAIN cfg THEN      \* the injected panic of the user function, recovered and logged by the engine
+        UNCHANGED <<cfg, rows, buf, exp, nout, dead, used>>
      ELSE IF e.e \in {"execerr", "panic"} THEN
         Reject("engine_" \o e.e) /\ UNCHANGED <<cfg, rows, buf, exp, nout, used>>
      ELSE UNCHANGED <<cfg, rows, buf, exp, nout, dead, used>>
